@@ -335,6 +335,11 @@ def compare(ctx, c, r, mv, mism):
         if gum_hard and not pv and r['eq'][k]:
             ctx.dist['undecided:hard-gumbel-sample-coincides'] += 1
             continue
+        if k in ('out', 'export') and not pv and r['eq'][k] and not pred[1] and not r['eq']['cost']:
+            # the coefficients differ (confirmed by the differing cost) but this batch does not show it in the outputs
+            # (e.g. the only channel whose precision differs is dead after ReLU): data coincidence, counted
+            ctx.dist['coincidence:outputs-insensitive-to-differing-coefficients'] += 1
+            continue
         if pv != r['eq'][k]:
             mism.append(('resume-%s-equal' % k, c, {'model_predicts_equal': pv, 'impl_equal': r['eq'][k], 'changed': r['changed'], 'brief': r['brief'].get(k)}))
     skipped = 0
